@@ -76,6 +76,21 @@ def fault_snippets(w):
         'internal-label-predeclared': ([';', 'ns _ {', 'wflip_area_start_0:', '}', ';', 'segment 16*w', ';'], 'only', ['wflip_area_start_0']),
         'huge-literal': ([';' + '9' * 5000], 'end', ['literal', 'number', 'digit', 'too', 'long', 'big', 'fit', 'bits', 'range']),
     }
+    # preprocessor-stage errors raised while other expansions are on the stack (the error reporter walks the stack):
+    # below a nested macro, a constant-counted rep, a rep whose count depends on labels declared earlier, and a namespace
+    inner = {'unknown-macro': (['zz_unknown 1, 2'], ['zz_unknown']),
+             'wrong-arity': (['zz_m 1'], ['zz_m']),
+             'dup-label': (['zz_l:', ';', 'zz_l:'], ['zz_l']),
+             'unknown-label': ([';zz_unknown_label'], ['zz_unknown_label']),
+             'bad-label-swap': (['zz_p 5'], ['label swap', 'zz_p'])}
+    pre = ['def zz_m a, b {', ';a + b', '}', 'def zz_p p {', 'p:', ';', '}']
+    for iname, (ilines, ineedles) in inner.items():
+        body = pre + ['def zz_w {'] + ilines + ['}']
+        f[iname + ':below-nested-macros'] = (body + ['def zz_v {', 'zz_w', '}', 'def zz_u {', 'zz_v', '}', 'zz_u'], 'end', ineedles)
+        f[iname + ':below-const-rep'] = (body + ['rep(2, zz_i) zz_w'], 'end', ineedles)
+        f[iname + ':below-label-counted-rep'] = (['zz_a:', ';', 'zz_b:'] + body + ['rep((zz_b - zz_a) / (2 * w), zz_i) zz_w'], 'end', ineedles)
+        f[iname + ':below-label-counted-rep-in-macro'] = (['zz_a:', ';', ';', 'zz_b:'] + body + ['def zz_o n {', 'rep(n / (2 * w), zz_i) zz_w', '}', 'zz_o zz_b - zz_a'], 'end', ineedles)
+        f[iname + ':in-namespace'] = (pre + ['ns zz_ns {', 'def zz_w {'] + ilines + ['}', '}', 'zz_ns.zz_w'], 'end', ineedles)
     for opname, bad in (('div-zero', '5 / %s'), ('mod-zero', '5 %% %s'), ('neg-shift', '1 << (%s - 1)'), ('neg-exponent', '2 ** (%s - 1)')):
         needles = ['math', 'division', 'zero', 'negative', 'exponent', 'shift', 'evaluate']
         f[opname + ':literal'] = ([';' + bad % '0'], 'end', needles)
